@@ -2313,6 +2313,9 @@ class Engine:
         return res
 
     def expr_Slice(self, node, st):
+        h = self.ctx_hook('slice_expr', st, node)
+        if h is not None:
+            return h
         def const(n):
             if n is None:
                 return None
